@@ -13,6 +13,19 @@ add("C20", "model_checking",
     "Coordinates are formatted independently per axis; inputs outside the enumerated neighbourhoods are covered only by the grid. Trusted: Go fmt/regexp, the oracle's own float arithmetic (1e-9 minute slack).",
     "bounded-exhaustive input enumeration against a format/error oracle", "seq", "DESIGN.md §5 C20")
 
+add("C06", "model_checking",
+    "Bounded-exhaustive exploration of the real lzhuf Writer/Reader: every string over {a,b} and {a,space} up to length 10 (12 thorough) and over {a,b,c} up to 7 (8), each under ALL 2^(n-1) partitions into Write calls (also with zero-length writes) and ALL compositions as Read buffer sizes; a structured family (periods 1,2,3,4,59,60,61 x lengths 0..200 x every single / pair of write cuts x read sizes 1..70); a long family up to 400 KB incl. the 0x8000 tree rebuild. Oracle: decoded == input, both Close nil, compressed bytes identical across all partitions.",
+    "Inputs beyond the enumerated alphabets/lengths are covered only by the structured and long families (fixed deterministic generators). Trusted: bytes.Equal, the harness' chunking drivers.",
+    "bounded-exhaustive enumeration of inputs x write partitions x read compositions on the real codec", "seq", "DESIGN.md §5 C06")
+add("C07", "model_checking",
+    "Every enumerated input (all strings over five small alphabets up to length 14/9/7/5, 13 periods x lengths 0..400, long family) is compressed by the library and decoded by an independently written canonical LZHUF decoder (header CRC-16/XMODEM and size layout checked by an independent CRC), and compressed by the independent canonical encoder and decoded by the library with Close()==nil; with and without CRC header.",
+    "The reference codec is written from the algorithm description (DESIGN.md App. E.1), position code derived from its length histogram, and is anchored at setup to the five golden .lzh files in both directions (byte-identical encoder output). A defect shared by the reference and the library that the goldens do not pin would be missed.",
+    "bounded-exhaustive differential check against an independent reference codec anchored to golden vectors", "seq", "DESIGN.md §5 C07")
+add("C08", "model_checking",
+    "Every stream of a finite family is fed to the real Reader under several Read buffer sizes and source chunkings and read to a terminal result: 12 boundary header sizes x ALL bodies of <= 2 bytes (65 793) and 3-byte bodies over 16 values x {no CRC, good CRC, bad CRC}; for a corpus of valid streams every truncation, every single-bit flip, size/CRC header edits (stale and resealed), trailing data, and all prefix/suffix splices of the short streams. Oracle: terminates (deterministic 64x(0,nil) livelock rule), never more bytes than declared, no panic, Close()==nil only if size, canonical decoding and CRC all agree.",
+    "Close verdict judged against the weakest reading (see DESIGN.md §5 C08). Streams outside the mutation families are not explored.",
+    "bounded-exhaustive enumeration of malformed streams against an independent decoder/CRC oracle", "seq", "DESIGN.md §5 C08")
+
 ids = [json.loads(l)["id"] for l in open("/verif/properties.jsonl")]
 na = [dict(property_id=i, reason="check not built yet in this session (planned, see DESIGN.md §5); not claimed until its command exists and is green") for i in ids if i not in checks]
 m = dict(version=1,
